@@ -124,7 +124,7 @@ class Runner:
             self.proc.kill()
 
     def run(self, archive, argv, stdin=b"", pre=(), outside=(), uid=0, archive_mtime=NOW - 1000, timeout=20, keep=False,
-            archive_arg=b"../archive.lzh", want_trees=True):
+            archive_arg=b"../archive.lzh", want_trees=True, stdin_pipe=False):
         self.n += 1
         S = os.path.join(self.base, "c%d" % self.n)
         root = os.path.join(S, "root")
@@ -137,6 +137,8 @@ class Runner:
         os.utime(os.path.join(S, "archive.lzh"), (archive_mtime, archive_mtime))
         with open(os.path.join(S, "stdin"), "wb") as f:
             f.write(stdin)
+        if stdin_pipe:
+            open(os.path.join(S, "stdin-pipe"), "w").close()
         make_tree(root, pre, owner=NOBODY if uid else None)
         make_tree(os.path.join(S, "outside"), outside)
         if uid:
